@@ -12,12 +12,13 @@ Sub-oracles (``sub`` of a violation)
                            numPoints = length, tabulated values = f(abscissae)
   table-grid               newTable keeps exactly the finite rows of linspace(a,b,n); extend keeps every
                            old row, adds only finite rows on the requested sides and reaches newMin/newMax
+  table-spacing            no abscissa closer than rounding noise to another unless such a block was requested
   table-accuracy           spline of the table agrees with f at all interval midpoints (h^4 bound)
   table-build-exception    newTable / extend / setExtrapolationType / adaptive update raised
-  eval-shape, eval-inside, eval-accuracy, eval-error-mode
+  eval-shape, eval-direct, eval-inside, eval-accuracy, eval-error-mode
   out-of-range-value       an outside entry is not what the mode on that side prescribes
   out-of-range-exception   evaluate/derivative raised something else than ValueError-in-ERROR-mode
-  deriv-shape, deriv-inside, deriv-error-mode, inside-exception
+  deriv-shape, deriv-direct, deriv-inside, deriv-error-mode, inside-exception
   adaptive-trigger         update fired before / did not fire at the threshold; coverage after it
   roundtrip                write + read into a fresh object reproduces table and values
 
@@ -59,7 +60,8 @@ RULE = (
     "extend / setExtrapolationType (16 pairs) / adaptive on-off / scheduleForInterpolation / burst of "
     "out-of-table evaluations sized to the update threshold / write+read round trip, with inputs of "
     "shape scalar, list, 1-D, 2-D and region class inside, edge, below, above, both-out, mixed, "
-    "near-edge placed relative to the table observed at generation time. Non-trivial = the history "
+    "near-edge placed relative to the table observed at generation time (one evaluation in four repeats the "
+    "previous call). Non-trivial = the history "
     "contains an evaluation or derivative with at least one out-of-range entry after at least one "
     "table-changing step; distinct by canonical JSON of the whole history."
 )
@@ -71,30 +73,32 @@ BUDGET = {
 # ---------------------------------------------------------------------------
 # Confirmed defects: generator steers around them while the switch is True
 # ---------------------------------------------------------------------------
+# all seven defects below were repaired in /repo ("fix:" commits 2c654d2, 7a53674, dacefc5, f39f966, a495aa4,
+# a23059d); the switches are off so that every class is searched again
 AVOID = {
     # D1  R=1: any out-of-range entry reaching a non-ERROR side with a pair other than NONE/NONE,
     #     ERROR/ERROR raises IndexError (res[mask, :] on a 1-D array) - evaluate and derivative
-    "r1_out_of_range": True,
+    "r1_out_of_range": False,
     # D2  R=1: one NaN value drops the whole table (np.all without axis) -> CubicSpline ValueError
-    "r1_nan_drop": True,
+    "r1_nan_drop": False,
     # D3  derivative: mixed in/out input (any R) or 2-D input with out-of-range entries passes the
     #     full x to helpers.derivative and fails to broadcast
-    "deriv_mixed": True,
+    "deriv_mixed": False,
     # D4  derivative: an outside entry closer than the stencil half width to the table edge (pair other
     #     than NONE/NONE) reads uninitialised memory for the stencil points that fall inside the table
-    "deriv_near_edge": True,
+    "deriv_near_edge": False,
     # D5  extend (manual or adaptive): the np.arange blocks are not robust to rounding. (a) lower side:
     #     np.arange(newMin, rangeMin, spacing) overruns and appends a point at rangeMin (+-1ulp);
     #     (b) either side: a requested extension of the order of ulp(edge)*points repeats abscissae.
     #     Outcome: ValueError from CubicSpline or a near-duplicate abscissa that ruins the spline.
-    "extend_grid": True,
+    "extend_grid": False,
     # D6  adaptive update without a table when all pending evaluations are the same x:
     #     linspace(x, x, n) -> CubicSpline ValueError
-    "adaptive_degenerate": True,
+    "adaptive_degenerate": False,
     # D7  pair NONE/CONSTANT: the lower (NONE) batch of a call fires an adaptive update that also extends the
     #     upper end; the upper entries of the same call then get the boundary value of the NEW table although
     #     they were classified against the old one (value is neither old boundary, new spline nor f)
-    "midcall_update": True,
+    "midcall_update": False,
 }
 _na = os.environ.get("VERIF_C18_NOAVOID", "")
 if _na:
@@ -1025,7 +1029,7 @@ class Runner:
         if self.adaptive:
             if direct:
                 sched = [np.ravel(xa)]
-            elif not want_err or True:
+            else:
                 none_side = (below & (self.lo == "NONE")) | (above & (self.hi == "NONE"))
                 if none_side.any():
                     sched = [np.ravel(xa)]
